@@ -67,25 +67,29 @@ pub fn analysed_event(id: usize, n: usize, edges: &[(usize, usize)], merge: &str
     }
 }
 
+/// random k-tree (optionally thinned): a (k+1)-clique, then every new vertex is joined to a random k-clique of what is
+/// there - chordal, with a BRANCHING clique tree and many equal-sized separators
+pub fn ktree_graph(rng: &mut StdRng, n: usize) -> Vec<(usize, usize)> {
+    let mut e = vec![];
+    let k = rng.gen_range(1..4usize).min(n - 1);
+    let mut cliques: Vec<Vec<usize>> = vec![(0..=k).collect()];
+    for i in 0..=k { for j in (i + 1)..=k { e.push((i, j)); } }
+    for v in (k + 1)..n {
+        let base = cliques[rng.gen_range(0..cliques.len())].clone();
+        let drop = rng.gen_range(0..base.len());
+        let kc: Vec<usize> = base.iter().enumerate().filter(|(t, _)| *t != drop).map(|(_, x)| *x).collect();
+        for &u in &kc { e.push((u, v)); }
+        let mut nc = kc; nc.push(v);
+        cliques.push(nc);
+    }
+    if rng.gen::<f64>() < 0.3 { e.retain(|_| rng.gen::<f64>() < 0.9); }
+    e
+}
+
 pub fn random_graph(rng: &mut StdRng, n: usize) -> Vec<(usize, usize)> {
     let mut e = vec![];
     match rng.gen_range(0..8) {
-        6 | 7 => {
-            // random k-tree (optionally thinned): a (k+1)-clique, then every new vertex is joined to a random k-clique
-            // of what is there - chordal, with a BRANCHING clique tree and many equal-sized separators
-            let k = rng.gen_range(1..4usize).min(n - 1);
-            let mut cliques: Vec<Vec<usize>> = vec![(0..=k).collect()];
-            for i in 0..=k { for j in (i + 1)..=k { e.push((i, j)); } }
-            for v in (k + 1)..n {
-                let base = cliques[rng.gen_range(0..cliques.len())].clone();
-                let drop = rng.gen_range(0..base.len());
-                let kc: Vec<usize> = base.iter().enumerate().filter(|(t, _)| *t != drop).map(|(_, x)| *x).collect();
-                for &u in &kc { e.push((u, v)); }
-                let mut nc = kc; nc.push(v);
-                cliques.push(nc);
-            }
-            if rng.gen::<f64>() < 0.3 { e.retain(|_| rng.gen::<f64>() < 0.9); }
-        }
+        6 | 7 => { e = ktree_graph(rng, n); }
         0 => { let bw = rng.gen_range(1..4); for i in 0..n { for j in (i + 1)..n.min(i + bw + 1) { e.push((i, j)); } } }
         1 => { for j in 1..n { e.push((0, j)); } let bw = rng.gen_range(0..2); for i in 1..n { for j in (i + 1)..n.min(i + bw + 1) { e.push((i, j)); } } }
         2 => { let bs = rng.gen_range(2..6); for i in 0..n { for j in (i + 1)..n { if i / bs == j / bs { e.push((i, j)); } } } }
@@ -131,6 +135,15 @@ pub fn record(seed: u64, thorough: bool, wd: &crate::rec_more::Watchdog) -> (Vec
         let edges = random_graph(&mut rng, n);
         let m = merges[rng.gen_range(0..3)];
         out.push(analysed_event(id, n, &edges, m, Some(wd)));
+        id += 1;
+    }
+    // branching clique trees in numbers: random k-trees under the clique-graph merge (its neighbour bookkeeping is only
+    // stressed when several merges share neighbours)
+    let nk = if thorough { 20000 } else { 700 };
+    for _ in 0..nk {
+        let n = rng.gen_range(8..32);
+        let edges = ktree_graph(&mut rng, n);
+        out.push(analysed_event(id, n, &edges, "clique_graph", Some(wd)));
         id += 1;
     }
     // the analysis as the solver runs it: problems with one or two sparse PSD cones next to other cones, every merge
